@@ -1011,3 +1011,7 @@ mod tests {
         }
     }
 }
+
+#[cfg(kani)]
+#[path = "/verif/kani/compiler_lexer.rs"]
+mod verif_kani;
